@@ -1249,6 +1249,59 @@ impl<'p> Interp<'p> {
 				}
 				Ok(V::Unit)
 			}
+			"partition_point" | "binary_search_by" => {
+				// the standard library's binary search (size-halving form), driven by the user closure
+				let f = args.remove(0);
+				let mut size = cs.len();
+				if size == 0 {
+					return if name == "partition_point" { Ok(V::Int(0, ITy::Usize)) } else { Ok(self.mk_err(V::Int(0, ITy::Usize))) };
+				}
+				let mut base = 0usize;
+				let cmp = |s: &mut Self, i: usize, f: &V| -> R<String> {
+					let r = s.call_value(f.clone(), vec![V::Ref(cs[i].clone())])?;
+					if name == "partition_point" {
+						Ok(if s.truth(r)? { "Less".into() } else { "Greater".into() })
+					} else {
+						let r = s.force(r)?;
+						match r {
+							V::Enum(_, va, _) => Ok(va.to_string()),
+							_ => unsup("comparator result"),
+						}
+					}
+				};
+				while size > 1 {
+					let half = size / 2;
+					let mid = base + half;
+					let c = cmp(self, mid, &f)?;
+					if c != "Greater" {
+						base = mid;
+					}
+					size -= half;
+				}
+				let c = cmp(self, base, &f)?;
+				if name == "partition_point" {
+					Ok(V::Int((base + (c == "Less") as usize) as i128, ITy::Usize))
+				} else if c == "Equal" {
+					Ok(self.mk_ok(V::Int(base as i128, ITy::Usize)))
+				} else {
+					Ok(self.mk_err(V::Int((base + (c == "Less") as usize) as i128, ITy::Usize)))
+				}
+			}
+			"rotate_left" | "rotate_right" => {
+				let (k, _) = self.concretize_int(args.remove(0))?;
+				let n = cs.len();
+				if k as usize > n {
+					return Err(Ctl::Panic("rotate: mid > len".into()));
+				}
+				let vals: Vec<V> = cs.iter().map(|c| self.read(c)).collect();
+				for (i, c) in cs.iter().enumerate() {
+					let src = if name == "rotate_left" { (i + k as usize) % n.max(1) } else { (i + n - k as usize) % n.max(1) };
+					let v = vals[src].clone();
+					self.write(c, v)?;
+				}
+				Ok(V::Unit)
+			}
+			"iter().rev" => unsup("x"),
 			"eq" | "ne" => {
 				let b = args.remove(0);
 				let e = self.val_eq(V::Seq(cs), b)?;
@@ -1267,6 +1320,21 @@ impl<'p> Interp<'p> {
 	}
 
 	fn iter_method(&mut self, it: V, name: &str, mut args: Vec<V>, hint: Option<&syn::Type>) -> R<V> {
+		if name == "contains" {
+			if let V::Range(a, b, incl) = &it {
+				let x = self.deref_val(&args[0]);
+				let mut acc = V::Bool(true);
+				if let Some(lo) = a {
+					let c = self.bin_cmp("<=", (**lo).clone(), x.clone())?;
+					acc = self.bool_and(acc, c)?;
+				}
+				if let Some(hi) = b {
+					let c = self.bin_cmp(if *incl { "<=" } else { "<" }, x, (**hi).clone())?;
+					acc = self.bool_and(acc, c)?;
+				}
+				return Ok(acc);
+			}
+		}
 		// unbounded ranges only support zip / take / next-less adaptors
 		if let V::Range(Some(a), None, _) = &it {
 			let (start, ty) = self.concretize_int((**a).clone())?;
@@ -1343,7 +1411,23 @@ impl<'p> Interp<'p> {
 				Ok(self.mk_iter(out))
 			}
 			"zip" => {
-				let other = self.materialize(args.remove(0))?;
+				let arg = args.remove(0);
+				let other = match self.deref_val(&arg) {
+					V::Range(Some(a), None, _) => {
+						let (start, ty) = self.concretize_int(*a)?;
+						let (_, hi) = ty.range();
+						let mut v = Vec::new();
+						for k in 0..items.len() {
+							let idx = start + k as i128;
+							if idx > hi {
+								return Err(Ctl::Panic("attempt to add with overflow (range iterator)".into()));
+							}
+							v.push(V::Int(idx, ty));
+						}
+						v
+					}
+					_ => self.materialize(arg)?,
+				};
 				let mut out = Vec::new();
 				for (x, y) in items.into_iter().zip(other.into_iter()) {
 					let (a, b) = (self.cell(x), self.cell(y));
